@@ -1,28 +1,30 @@
-"""./check --selftest [seed_dir ...] : apply every seeded change, run its property's check, compare with
-the verdict recorded in meta.json (violation / undecided / missed).  Exit 0 iff all match."""
+"""./check --selftest [seed_dir prefix ...] : run every seeded change (on its own scratch copy of /repo, SEED_JOBS at a
+time; /repo itself is never touched) through its property's check and compare with the verdict recorded in meta.json
+(violation / undecided / missed); behaviour-preserving refactors (meta "benign") must not produce a VIOLATION anywhere.
+Exit 0 iff all match."""
 import os, sys, json
+import concurrent.futures as cf
 import seedtool
 def main(argv):
     root = os.path.join(seedtool.VERIF, "seeded")
-    dirs = argv or sorted(d for d in os.listdir(root) if os.path.exists(os.path.join(root, d, "meta.json")))
+    dirs = sorted(d for d in os.listdir(root) if os.path.exists(os.path.join(root, d, "meta.json")))
+    if argv:
+        dirs = [d for d in dirs if any(d.startswith(a) for a in argv)]
     bad = 0
-    for sd in dirs:
-        meta = json.load(open(os.path.join(root, sd, "meta.json")))
-        if meta.get("benign"):
-            # behaviour-preserving refactor: no check may report a violation (exit 2 = undecided is acceptable)
-            res = seedtool.prun(sd)
-            alarms = [p for p, r in res.items() if isinstance(r, dict) and r.get("exit") == 1]
-            bad += 1 if alarms else 0
-            print("%-12s benign  %s" % (sd, "FALSE ALARM in " + ",".join(alarms) if alarms else "no alarm " + str({p: r.get("exit") for p, r in res.items()})))
+    with cf.ThreadPoolExecutor(int(os.environ.get("SEED_JOBS", "3"))) as ex:
+        for sd, res in zip(dirs, ex.map(seedtool.prun, dirs)):
+            meta = json.load(open(os.path.join(root, sd, "meta.json")))
+            if meta.get("benign"):
+                alarms = [p for p, r in res.items() if isinstance(r, dict) and r.get("exit") == 1]
+                bad += 1 if alarms else 0
+                print("%-12s benign  %s" % (sd, "FALSE ALARM in " + ",".join(alarms) if alarms else "no alarm " + str({p: r.get("exit") for p, r in res.items() if isinstance(r, dict)})))
+            else:
+                r = res.get(meta["property"], {}) if isinstance(res, dict) else {}
+                got = {1: "violation", 2: "undecided", 0: "missed"}.get(r.get("exit"), "error")
+                want = meta.get("expected_verdict_of_property_check", "violation")
+                ok = got == want
+                bad += 0 if ok else 1
+                print("%-12s %-4s expected=%-9s got=%-9s %s  (%.0fs)" % (sd, meta["property"], want, got, "ok" if ok else "MISMATCH", r.get("wall_s", 0)))
             sys.stdout.flush()
-            continue
-        res = seedtool.run(sd)
-        r = res.get(meta["property"], {})
-        got = {1: "violation", 2: "undecided", 0: "missed"}.get(r.get("exit"), "error")
-        want = meta.get("expected_verdict_of_property_check", "violation")
-        ok = got == want
-        bad += 0 if ok else 1
-        print("%-8s %-4s expected=%-9s got=%-9s %s  (%.0fs)" % (sd, meta["property"], want, got, "ok" if ok else "MISMATCH", r.get("wall_s", 0)))
-        sys.stdout.flush()
     print("selftest: %d seeded changes, %d mismatches" % (len(dirs), bad))
     return 0 if bad == 0 else 2
